@@ -43,6 +43,21 @@ def run(ctx):
             if run_case(ctx, shape, recursive, lin):
                 k += 1
             continue
+        if attempts % 12 == 7:
+            # recursive nonterminals whose value is NOT dense (repeated external nodes: a diagonal that fills in, or stays diagonal)
+            from .c02 import gen_pattern_growing
+            recursive = True
+            shape = gen_pattern_growing(ctx.rng)
+            if ctx.rng.random() < 0.5:
+                # X(a,a) -> p(a) | t(a,c) X(c,c): every rule repeats the external node, the value stays diagonal
+                dom = shape['nls'][0]
+                shape['rules'] = [r for r in shape['rules'] if not (r['lhs'] == 1 and len(r['nodes']) == 3)] + \
+                    [dict(lhs=1, nodes=[0, 0], ext=[0, 0], edges=[('t', 0, [0, 1]), ('n', 1, [1, 1])])]
+            rec, lin = sccs_and_linearity(shape)
+            ctx.count('pattern-growing-family')
+            if run_case(ctx, shape, recursive, lin):
+                k += 1
+            continue
         if recursive:
             from .c02 import gen_shape as g2
             shape = g2(ctx.rng)
